@@ -38,7 +38,7 @@ def stmt(op, dst=None, src=None, v=0, d=0, flags=0, body=(), els=()):
 # ---- declarations ------------------------------------------------------------------------------------
 def rand_decl(rng):
     d = mapdecl.rand_decl(rng, arrays=False, percpu=False,
-                          hash_fmts="bBhHiIqQ" + ("x" if rng.random() < 0.25 else ""))
+                          hash_fmts="bBhHiIqQ" + ("xx" if rng.random() < 0.4 else ""))
     if d["hash"]:
         for v in d["hash"]["vars"]:
             if v["fmt"] == "x":
@@ -304,7 +304,8 @@ def history(rng, backend, decl, nops, meta):
         name, fmt = (names.outs[idx][:2] if kind == "a" else names.hvars[idx][:2])
         op = "pywrite_a" if kind == "a" else "pywrite_h"
         if fmt == "x":
-            n = rng.choice([rng.randint(-300, 300) * M.SCALE, rng.randint(-10 ** 7, 10 ** 7)])
+            n = rng.choice([rng.randint(-300, 300) * M.SCALE, rng.randint(-10 ** 7, 10 ** 7),
+                            rng.choice(mapdecl.TRICKY_FIXED), rng.choice(mapdecl.TRICKY_FIXED)])
             val = n // M.SCALE if n % M.SCALE == 0 and rng.random() < 0.5 else n / M.SCALE
         else:
             n = val = mapdecl.rand_value(rng, fmt)
